@@ -17,6 +17,47 @@ CHECKS = {
              "A-GEOID-FULLCACHE and A-KISSFFT-FACTORS (see evidence).",
         technique="static effect analysis (may-write summaries over the resolved call graph + path facts on the clang CFG)",
         ref="3.1"),
+    'C13': dict(
+        text="Library-wide structural decision of the error contract: (X1) every one of the ~240 throw sites "
+             "constructs GeographicErr and every handler converts or is audited; (X3) commit-last typestate on "
+             "the CFG of every public function with output arguments, compositional through callee summaries; "
+             "(X4) Kleene evaluation of every throw guard with one argument set to NaN; (X5) witness "
+             "interpretation of every validating constructor/setter over the partition {NaN, +-inf, 0, negative, "
+             "out of range} with delegated constructors followed; (X6) every loop has a counter/container/stream "
+             "bound or an audited termination argument; (X2b) strchr membership excludes NUL; (X8) no "
+             "fast-math/no-exceptions flags. These hold for every input because they hold for every path.",
+        note="NOT decided: general memory safety, signed overflow, propagation of NaN to the outputs, std-library "
+             "logic errors other than X2b. Assumes A-ELLIPTIC-ARGS, A-SINGLETON-NOTHROW; bad_alloc is outside the "
+             "contract. One known finding (Utility::readarray partial write).",
+        technique="CFG typestate + call-graph may-throw/may-write summaries; Kleene/witness abstract evaluation of guards",
+        ref="3.4"),
+    'C04': dict(
+        text="Decides the error clauses of the property for UTMUPS: a failing call leaves its output arguments "
+             "unchanged (X3 commit-last typestate over Forward/Reverse/Transfer/DecodeZone/DecodeEPSG...), only "
+             "GeographicErr is thrown (X1), and no guard throws because an argument is NaN (X4).",
+        note="Zone selection, false origins, ranges and the round trip are numerical/combinatorial and NOT decided "
+             "by this check; it decides the 'fails cleanly / NaN does not throw' clause only.",
+        technique="CFG typestate (commit-last) + Kleene NaN evaluation of throw guards",
+        ref="3.4, 4 (C04)"),
+    'C05': dict(
+        text="Decides the error clauses for MGRS: outputs committed last on every path of Forward/Reverse/Decode "
+             "(X3), only GeographicErr (X1), NaN never raises (X4), and the alphabet membership helper rejects "
+             "NUL (X2b).",
+        note="Digit truncation, band/row consistency and the accept/reject set of strings are NOT decided.",
+        technique="CFG typestate (commit-last) + Kleene NaN evaluation + path-fact check on strchr",
+        ref="3.4, 4 (C05)"),
+    'C10': dict(
+        text="Decides the error clauses for the text parsers (DMS, Utility::val/fract/nummatch/ParseLine/date, "
+             "GeoCoords::Reset): throw type (X1), outputs committed last (X3), NUL rejected by lookup (X2b).",
+        note="Closure of format->parse, carry normalisation and half-ulp fidelity are NOT decided.",
+        technique="CFG typestate (commit-last) + throw-site audit",
+        ref="3.4, 4 (C10)"),
+    'C18': dict(
+        text="Decides the error clauses for Geohash/GARS/Georef/OSGB: throw type (X1), outputs committed last (X3), "
+             "NaN never raises (X4), NUL rejected by the alphabet lookup (X2b).",
+        note="Containing-cell arithmetic, prefix property and full consumption of the input are NOT decided.",
+        technique="CFG typestate (commit-last) + Kleene NaN evaluation + path-fact check on strchr",
+        ref="3.4, 4 (C18)"),
 }
 
 NOT_APPLICABLE = {
